@@ -1895,15 +1895,14 @@ func (interp *Interpreter) cfg(root *node, sc *scope, importPath, pkgName string
 				}
 			}
 			returnSig := sc.def.child[2]
-			if mustReturnValue(returnSig) {
-				nret := len(n.child)
-				if nret == 1 && isCall(n.child[0]) {
-					nret = n.child[0].child[0].typ.numOut()
-				}
-				if nret < sc.def.typ.numOut() {
-					err = n.cfgErrorf("not enough arguments to return")
-					break
-				}
+			nret := len(n.child)
+			if nret == 1 && isCall(n.child[0]) {
+				nret = n.child[0].child[0].typ.numOut()
+			}
+			// Only a return without values is allowed to omit the named results.
+			if nret < sc.def.typ.numOut() && (len(n.child) > 0 || mustReturnValue(returnSig)) {
+				err = n.cfgErrorf("not enough arguments to return")
+				break
 			}
 			wireChild(n)
 			n.tnext = nil
